@@ -6,7 +6,7 @@ from collections import Counter
 import framework as F
 
 ID = "C05"
-GEN = ["Conv"]
+GEN = ["Conv", "ConnectionClasses"]
 LEVEL = "proof"
 TECHNIQUE = ("Coq proof over the reals about a nested-list model of LinearDense / LinearDirect / LinearLateral / Conv2D "
              "(F.linear, matmul, F.unfold, F.fold and the einops patterns modelled by their index maps), against independent "
@@ -22,9 +22,19 @@ LEVEL_TEXT = ("Machine-checked proofs (Coq 8.16, real-number instance of the sha
               "coded floating-point output-size formula being proved equal to floor((H+2p-d(k-1)-1)/s)+1; like_input after "
               "like_synaptic is the identity on every input position the connection reads (conv: wherever the fold count is "
               "non-zero, which is proved to be exactly the read positions); the receptive views are the stated index "
-              "permutations and their shapes broadcast to B x weight-shape x L.")
-LEVEL_NOTE = ("Trusted: Coq kernel; the hand-written model coq/C05/Conn.v (object plumbing, not translatable kernels) is tied to the "
-              "code only by the correspondence check (bounded by generator coverage: H,W<=7 (9 thorough), kernel<=3, "
+              "permutations and their shapes broadcast to B x weight-shape x L."
+              " The four connection classes are re-translated from inferno/neural/connections/{linear,conv}.py on every run into "
+              "Gen/ConnectionClasses.v (abstract syntax of forward / selector / like_* / *_receptive / inshape / outshape with their einops "
+              "pattern strings, LinearLateral's mask and masked setters as numeric functions, constructor signatures and defaults) and "
+              "tied to the model by 47 proved equalities (coq/C05/GenTie*.v): per method the generated term equals the structure the model "
+              "implements written with the model's pattern constants, LinearLateral's mask / setters equal the model's mask_el / masked, and "
+              "an evaluator that gives the abstract operations their model meaning runs the GENERATED undelayed forward of LinearDense, "
+              "LinearDirect and Conv2D to exactly Conn.linear / Conn.direct_map / Conn.conv_map.")
+LEVEL_NOTE = ("Trusted: Coq kernel; tools/translate.py (class extractor for the connection classes: pattern-checked, fails closed on any other "
+              "statement / expression shape; its reading of the Python syntax, not of torch); the hand-written model coq/C05/Conn.v is "
+              "tied to the code by the GenTie equalities for the decision structure, operators, operand order, pattern strings, mask, setters and "
+              "defaults (syntactic for the einops patterns: their MEANING in the model - concat / chunk / axis swaps - is hand-written and "
+              "validated by the correspondence only; the delayed branches are tied syntactically only) and otherwise by the correspondence check (bounded by generator coverage: H,W<=7 (9 thorough), kernel<=3, "
               "stride/dilation<=3, padding<=2, C,F<=3, B<=3); PyTorch's F.linear / matmul / F.unfold / F.fold / einops are modelled "
               "by their mathematical meaning, not verified; theorems are exact real arithmetic (floating-point rounding and "
               "inf/NaN not covered: assigning inf/NaN on the lateral diagonal yields NaN because the setter multiplies by the "
@@ -38,7 +48,10 @@ LEVEL_NOTE = ("Trusted: Coq kernel; the hand-written model coq/C05/Conn.v (objec
               "is exercised, by correspondence), the selector property, like_bias (identity reshapes; correspondence only), "
               "constructor argument validation beyond positivity (correspondence only).")
 TRUSTED = ["coq/C05/Conn.v: hand-written model of the four connection classes, the masked setters, Updater application and the "
-           "reshaping helpers; validated against the real classes on every run by tools/props/c05.py"]
+           "reshaping helpers; validated against the real classes on every run by tools/props/c05.py; its forward structure, operators, "
+           "pattern constants (coq/C05/ConnPatterns.v), mask and setters are additionally tied to Gen/ConnectionClasses.v (generated from the "
+           "source on every run) by coq/C05/GenTie*.v",
+           "meaning of the einops patterns and of F.linear / torch.matmul / F.unfold / F.fold in the model (hand-written; correspondence only)"]
 ASSUMES = ["synapse current = like_synaptic(input) * (charge/dt) for the DeltaCurrent / DeltaPlusCurrent synapses used to drive "
            "the connections (checked exactly on every case)"]
 HEADER = ("From Coq Require Import List ZArith Bool PrimFloat.\n"
